@@ -195,8 +195,10 @@ func (s *initialCryptoStream) Write(p []byte) (int, error) {
 			return len(p), nil
 		}
 		s.end = protocol.ByteCount(len(s.writeBuf))
-		s.cuts[0].start = protocol.ByteCount(sniPos + sniLen/2) // right in the middle
-		s.cuts[0].end = protocol.ByteCount(sniPos + sniLen)
+		if sniPos >= 0 {
+			s.cuts[0].start = protocol.ByteCount(sniPos + sniLen/2) // right in the middle
+			s.cuts[0].end = protocol.ByteCount(sniPos + sniLen)
+		}
 		if echPos > 0 {
 			// ECH extension found, cut the ECH extension type value (a uint16) in half
 			start := protocol.ByteCount(echPos + 1)
@@ -207,6 +209,9 @@ func (s *initialCryptoStream) Write(p []byte) (int, error) {
 		slices.SortFunc(s.cuts[:], func(a, b clientHelloCut) int {
 			if a.start == protocol.InvalidByteCount {
 				return 1
+			}
+			if b.start == protocol.InvalidByteCount {
+				return -1
 			}
 			if a.start > b.start {
 				return 1
